@@ -1,4 +1,5 @@
 """C03 — analysis-driven pruning never changes what a program does (mechanism integrity)."""
+import re
 import json
 
 from ..guards import ne, sh
@@ -195,6 +196,52 @@ def variant_regions(fn, S, si):
         for name in label_names(fn, S, [lab], si):
             out.setdefault(name, set()).update(fn.reach([tgt], removed_nodes=[S]))
     return out
+
+
+def r1b_capture_write_is_an_effect(ctx):
+    """A function that assigns to a variable of an enclosing scope has an effect its callers can observe.  Somewhere between
+    the statement that performs the write and the removal test, that has to make the call non-removable: either the writing
+    statement is classed Impure, or the summaries' class accounts for capture writes, or the effective class of a call
+    statement consults the callee's capture-write sets."""
+    from ..mir import fields_read
+    where = []
+    # (a) the effective class of a statement looks at the callees' capture writes
+    sec = ctx.need("analysis::opt::stmt_effective_class")
+    for g in ctx.lib.family(sec.id):
+        ctx.touch(g)
+        rd = fields_read(g, "FunctionSummary")
+        for f in ("transitive_capture_writes", "direct_capture_writes"):
+            if f in rd:
+                where.append(("stmt_effective_class reads %s" % f, g.where(rd[f][0])))
+    # (b) the class stored in the summaries is computed from the capture writes
+    for fid in ("analysis::summary::compute_body_classes", "analysis::summary::initialize_summaries", "analysis::summary::summarize_component"):
+        g0 = ctx.lib.fns.get(fid)
+        if g0 is None:
+            continue
+        for g in ctx.lib.family(fid):
+            ctx.touch(g)
+            for b in sorted(g.live):
+                for st in g.blocks[b]["s"]:
+                    lp = st["lhs"]["p"]
+                    if lp and isinstance(lp[-1], dict) and lp[-1].get("f") in ("transitive_class", "body_class"):
+                        # is the stored value control- or data-dependent on a capture-write set?
+                        deps = " ".join(sh(ne(g.deep(g.blocks[S]["t"]["d"]))) for S, al in g.constraints(b)) + " " + sh(ne(g.deep_rvalue(st["rv"])))
+                        if "capture_writes" in deps:
+                            where.append(("%s derives the class from capture writes" % fid.split("::")[-1], g.where(b)))
+    # (c) the resolver classes the writing statement itself as Impure where it records the capture write
+    cs = ctx.need("resolver::Resolver::check_stmt")
+    rcw = ctx.need("resolver::Resolver::record_capture_write")
+    for g in (cs, rcw):
+        ctx.touch(g)
+        for c in g.calls():
+            if (c.callee or "").split("::")[-1] in ("set_stmt_expr_class", "join_stmt_expr_class") and "Impure" in sh(ne(g.deep(c.args[1]))):
+                cons = " ".join(sh(ne(g.deep(g.blocks[S]["t"]["d"]))) for S, al in g.constraints(c.block))
+                if g is rcw or ("AssignExisting" in " ".join(",".join(sorted(label_names(g, S, al, g.switch_info(S)))) for S, al in g.constraints(c.block) if g.switch_info(S)["kind"] == "discr") and "owner" in cons):
+                    where.append(("the resolver classes a capture-writing assignment Impure", g.where(c.block)))
+    if where:
+        ctx.ok("capture-write-is-an-effect", where[0][1], where[0][0])
+    else:
+        ctx.bad("capture-write-is-an-effect", sec.where(), "nothing between a function's assignment to an enclosing variable and the removal test marks calls of that function as having an effect: the writing statement is classed by its right-hand side only, the summaries' class ignores the capture-write sets, and stmt_effective_class does not read them - `make unused get bump()` is pruned although bump() changes a variable that is printed afterwards")
 
 
 def r2_effect_tables(ctx):
@@ -516,7 +563,106 @@ def r4_dataflow_shape(ctx):
         ctx.bad("block-facts|upward-exposed", nuf.where(), "note_use lost its upward-exposed test")
 
 
-RULES = [("C03-R1", r1_plan_only_from_pure), ("C03-R2", r2_effect_tables), ("C03-R3", r3_plan_consulted), ("C03-R4", r4_dataflow_shape)]
+def r4b_reads_and_writes_reach_the_summaries(ctx):
+    """Every use of a looked-up variable is recorded twice: for the statement (liveness inside the function) and for the
+    function (what its callers must assume).  A site that records only the statement half makes a variable that a callee
+    reads - or writes - look untouched by the call."""
+    n = 0
+    pairs = (("record_stmt_read", "record_capture_read", "read"), ("record_stmt_write", "record_capture_write", "write"))
+    for fn in [f for f in ctx.lib.fns.values() if f.file == "src/resolver.rs" and "Resolver::" in f.id]:
+        rec = [c for c in fn.calls() if (c.callee or "").startswith("resolver::Resolver::record_")]
+        for a_name, b_name, what in pairs:
+            for a in [c for c in rec if c.callee.split("::")[-1] == a_name]:
+                arg = sh(ne(fn.deep(a.args[1])))
+                if not ("lookup_var_info(" in arg or "expr_root_local(" in arg or "lookup" in arg):
+                    continue    # the local just declared by this statement: it belongs to the current function
+                n += 1
+                ctx.touch(fn)
+                partners = {b.block for b in rec if b.callee.split("::")[-1] == b_name and sh(ne(fn.deep(b.args[1]))) == arg}
+                short = fn.id.split("::")[-1]
+                ordn = sum(1 for r in ctx.records if r["rule"] == ctx.rule and r["instance"].startswith("paired|%s|%s#" % (short, what)))
+                key = "paired|%s|%s#%d" % (short, what, ordn + 1)
+                if not partners:
+                    ctx.bad("unpaired|%s|%s|%s" % (short, what, re.sub(r"next\(.*?\)\)\)\)", "item", arg)[:50]), fn.where(a.block), "%s records the %s of `%s` for the statement but not for the enclosing function (%s missing): callers of this function do not see that it %ss the variable, so an assignment that only this function %s is treated as dead (or as surviving) across the call" % (short, what, arg[:60], b_name, what, "reads" if what == "read" else "overwrites"))
+                    continue
+                r = fn.reach([j for _, j in fn.succ[a.block]], removed_nodes=partners)
+                if (r & set(fn.exits())) or a.block in r:
+                    ctx.bad("unpaired|%s|%s|conditional" % (short, what), fn.where(a.block), "%s can record the %s of `%s` for the statement without recording it for the function" % (short, what, arg[:60]))
+                else:
+                    ctx.ok(key, fn.where(a.block), "%s is always followed by %s of the same local" % (a_name, b_name))
+    ctx.floor("looked-up variable uses recorded in the resolver", n, 7)
+
+
+def r4c_summaries_are_a_transitive_closure(ctx):
+    """summarize_component extends each transitive set of the caller with the *same* transitive set of the callee, re-iterates
+    while anything changed, and starts every transitive set from the function's own direct set."""
+    sc = ctx.need("analysis::summary::summarize_component")
+    ctx.touch(sc)
+    ext = [c for c in sc.calls() if (c.callee or "").endswith("summary::extend_unique")]
+    seen = set()
+    for c in ext:
+        dst = sh(ne(sc.deep(c.args[0])))
+        src = sh(ne(sc.deep(c.args[1])))
+        fd = dst.rsplit(".", 1)[-1]
+        fs = src.rsplit(".", 1)[-1]
+        side_d = re.search(r"\)\.(\d)\.\w+$", dst)
+        side_s = re.search(r"\)\.(\d)\.\w+$", src)
+        seen.add(fd)
+        if fd == fs and fd.startswith("transitive_") and side_d and side_s and side_d.group(1) != side_s.group(1):
+            ctx.ok("closure|extend|%s" % fd, sc.where(c.block), "caller.%s += callee.%s" % (fd, fs))
+        else:
+            ctx.bad("closure|extend|%s<-%s" % (fd, fs), sc.where(c.block), "summarize_component extends the caller's %s with the callee's %s: what a function reaches through two or more calls is missing from its summary, so a variable read (or written) only deep in a call chain looks untouched by the call - its assignment is pruned / reported unused" % (fd, fs))
+        # the change flag is raised when the set grew
+        tgt = c.target
+        grew = False
+        S = tgt
+        hops = 0
+        while S is not None and hops < 8:
+            t = sc.blocks[S]["t"]
+            if t["k"] == "switch":
+                break
+            S = t.get("t") if t["k"] in ("goto", "call") else None
+            hops += 1
+        reach = sc.reach([tgt]) if tgt is not None else set()
+        for b in reach:
+            for st in sc.blocks[b]["s"]:
+                if not st["lhs"]["p"] and (sc.locals[st["lhs"]["l"]]["name"] == "changed") and st["rv"]["k"] == "use" and isinstance(st["rv"]["a"], dict) and st["rv"]["a"].get("int") == 1:
+                    grew = True
+        if not grew:
+            ctx.bad("closure|no-fixpoint|%s" % fd, sc.where(c.block), "growing %s does not raise the `changed` flag: the iteration stops before the closure is reached" % fd)
+    for want in ("transitive_callees", "transitive_capture_reads", "transitive_capture_writes"):
+        if want not in seen:
+            ctx.bad("closure|missing|%s" % want, sc.where(), "summarize_component no longer propagates %s from callees to callers" % want)
+    ctx.floor("set extensions in summarize_component", len(ext), 3)
+    j = [c for c in sc.calls() if (c.callee or "").endswith("ExprClass::join")]
+    if j and all(sh(ne(sc.deep(c.args[1]))).endswith(".transitive_class") for c in j):
+        ctx.ok("closure|class", sc.where(j[0].block), "caller class joins the callee's transitive class")
+    else:
+        ctx.bad("closure|class", sc.where(), "the caller's class is not joined with the callee's *transitive* class (%s)" % [sh(ne(sc.deep(c.args[1])))[-30:] for c in j])
+    # initial value of every transitive set is the direct set of the same kind
+    ini = ctx.need("analysis::summary::initialize_summaries")
+    ctx.touch(ini)
+    fields = [f[0] for f in ctx.lib.adt("analysis::summary::FunctionSummary")["variants"][0]["fields"]]
+    ok_init = False
+    for b in sorted(ini.live):
+        for st in ini.blocks[b]["s"]:
+            rv = st["rv"]
+            if rv["k"] == "agg" and "FunctionSummary" in str(rv.get("adt")) and len(rv["ops"]) == len(fields):
+                ok_init = True
+                vals = {f: sh(ne(ini.deep(o))) for f, o in zip(fields, rv["ops"])}
+                for kind in ("callees", "capture_reads", "capture_writes"):
+                    t, dd = vals.get("transitive_" + kind, ""), vals.get("direct_" + kind, "")
+                    core_t = re.sub(r"^(clone_ids\()+", "", t)
+                    core_d = re.sub(r"^(clone_ids\()+", "", dd)
+                    if core_t.split(",")[0] == core_d.split(",")[0] and ("direct_" + kind) in (t + dd):
+                        ctx.ok("closure|init|%s" % kind, ini.where(b), "transitive_%s starts as a copy of direct_%s" % (kind, kind))
+                    else:
+                        ctx.bad("closure|init|%s" % kind, ini.where(b), "transitive_%s is not initialised from direct_%s (%s)" % (kind, kind, t[:60]))
+    if not ok_init:
+        ctx.bad("closure|init|shape", ini.where(), "cannot see how initialize_summaries builds a FunctionSummary")
+
+
+RULES = [("C03-R1", r1_plan_only_from_pure), ("C03-R1b", r1b_capture_write_is_an_effect), ("C03-R2", r2_effect_tables), ("C03-R3", r3_plan_consulted), ("C03-R4", r4_dataflow_shape), ("C03-R4b", r4b_reads_and_writes_reach_the_summaries), ("C03-R4c", r4c_summaries_are_a_transitive_closure)]
 
 EXPLANATION = (
     "R1: in build_optimization_plan every push into the removable sets is edge-dominated by the test that justifies it "
